@@ -100,25 +100,9 @@ func fqPathRow(it item, out any) (vs []viol) {
 	return vs
 }
 
-func fqPathLevels(r *core.Run) []level {
-	ls := []level{
-		{name: "size0-full", n: 0, pol: polFull, pair: false, json: false},
-		{name: "size1-full-single", n: 1, pol: polFull, single: true},
-		{name: "size2-k1", n: 2, pol: polK1},
-	}
-	if r.Thorough() {
-		ls = append(ls,
-			level{name: "size1-full-pairs", n: 1, pol: polFull, pair: true},
-			level{name: "size2-k2", n: 2, pol: polK2},
-			level{name: "size3-k1", n: 3, pol: polK1})
-	}
-	return ls
-}
-
-func runFqPath(r *core.Run) {
-	g := newGen(false)
-	const batchN = 2000
-	for _, l := range fqPathLevels(r) {
+func runFqPath(r *core.Run, levels []level) bool {
+	const batchN = 1000
+	for _, l := range levels {
 		var batch []item
 		var n int64
 		seen := map[uint64]struct{}{}
@@ -127,13 +111,18 @@ func runFqPath(r *core.Run) {
 				return
 			}
 			vs := fqPathBatch(r, batch)
-			report(r, "fqpath", batch[0], "", vs)
+			for _, v := range vs {
+				report(r, "fqpath", item{v.prog, ""}, "", []viol{v})
+			}
+			if n == 0 {
+				r.Sample(map[string]any{"oracle": "fq AST->JSON->AST path and rewrite shape", "level": l.name, "program": batch[0].text})
+			}
 			n += int64(len(batch))
 			batch = batch[:0]
 		}
-		done := l.each(g, func(it item) bool {
+		done := l.each(r, func(it item) bool {
 			h := hashText(it.text)
-			if !r.Mine(int64(h >> 2)) {
+			if !l.mine(r, h) {
 				return true
 			}
 			if _, ok := seen[h]; ok {
@@ -158,12 +147,12 @@ func runFqPath(r *core.Run) {
 		r.Count("fqpath_programs_"+l.name, n)
 		if !done {
 			r.NotExhaustive("deadline: fq AST->JSON->AST path level " + l.name + " not finished")
-			return
+			return false
 		}
 		if r.ShardIdx == 0 {
 			r.Section("fqpath:" + l.name)
 		}
 		r.Logf("fqpath %s: programs=%d", l.name, n)
 	}
+	return true
 }
-
